@@ -449,3 +449,11 @@ add("s-precondition-scale-floored", S, ["C07", "C16"], "dfols/model.py",
     "            if not approx_delta > 0.0:\n                approx_delta = 1.0\n")
 add("slow-history-range-includes-zero", F, ["C07"], "dfols/params.py", "type_str, nonetype_ok, lower, upper = 'int', False, 1, None  # the average decrease is taken over this many iterations (a divisor)",
     "type_str, nonetype_ok, lower, upper = 'int', False, 0, None", "C07-14")
+
+# ---- C07-15: no assert on an argument in solve (pre-repair form of F07k)
+add_multi("bounds-pair-checked-by-assert", F, ["C07"], [
+    ("dfols/solver.py", "    elif len(bounds) != 2:\n        xl = None  # reported as an input error below\n        xu = None\n    else:\n",
+     "    else:\n        assert len(bounds) == 2, \"bounds must be a 2-tuple of (lower, upper), where both are arrays of size(x0)\"\n"),
+], "C07-15")
+add("s-bounds-pair-test-named", S, ["C07", "C01", "C09"], "dfols/solver.py", "    if bounds is not None and len(bounds) != 2:\n        exit_info = ExitInformation(EXIT_INPUT_ERROR, \"bounds must be a 2-tuple",
+    "    bounds_malformed = bounds is not None and len(bounds) != 2\n    if bounds_malformed:\n        exit_info = ExitInformation(EXIT_INPUT_ERROR, \"bounds must be a 2-tuple")
